@@ -15,12 +15,13 @@ ALL_SHAPES = list(session.SHAPES)
 
 
 def _one_shape(args):
-    (shape, level, nbeh, seed, strategy, scratch_dir, check_props, workers) = args
+    """One worker: TLC (properties + graph export) once for the shape, then replay under each strategy."""
+    (shape, level, nbeh, seed, strategies, scratch_dir, workers) = args
 
     class _Scratch:
         dir = scratch_dir
         def path(self, *names):
-            p = os.path.join(self.dir, shape + '-' + strategy, *names)
+            p = os.path.join(self.dir, shape, *names)
             os.makedirs(os.path.dirname(p), exist_ok=True)
             return p
 
@@ -28,36 +29,39 @@ def _one_shape(args):
         scratch = _Scratch()
 
     ctx = _Ctx()
-    out = {'shape': shape, 'strategy': strategy, 'level': level}
+    outs = []
     t0 = time.time()
     try:
         # one TLC run: exhaustive check of the specification's invariants and action properties + graph export
         nodes, edges, inits, res = tlc.dump_graph('PonySession', session.cfg_props(shape, level), ctx.scratch,
                                                   tag='PonySession-%s' % shape, workers=workers)
-        g = session.Graph(nodes, edges, inits)
-        if check_props:
-            out['props_states'] = res.distinct
-            out['props_transitions'] = res.generated
-        out['states'] = len(g.nodes)
-        out['transitions'] = g.nedges
-        out['t_tlc'] = round(time.time() - t0, 1)
-        d = session.Driver(ctx, shape, g, strategy=strategy, seed=seed)
-        t1 = time.time()
-        traces = []
-        for i in range(nbeh):
-            tr = d.run_behaviour(level + 3)
-            if i < 2:
-                traces.append(tr)
-        out['t_replay'] = round(time.time() - t1, 1)
-        out['stats'] = d.stats
-        out['edges_visited'] = len(g.visited)
-        out['found'] = d.found[:200]
-        out['nfound'] = len(d.found)
-        out['samples'] = traces
-        d.close()
+        t_tlc = round(time.time() - t0, 1)
+        for j, strategy in enumerate(strategies):
+            g = session.Graph(nodes, edges, inits)
+            out = {'shape': shape, 'strategy': strategy, 'level': level, 't_tlc': t_tlc if j == 0 else 0}
+            if j == 0:
+                out['props_states'] = res.distinct
+                out['props_transitions'] = res.generated
+            out['states'] = len(g.nodes)
+            out['transitions'] = g.nedges
+            d = session.Driver(ctx, shape, g, strategy=strategy, seed=seed + j)
+            t1 = time.time()
+            traces = []
+            for i in range(nbeh):
+                tr = d.run_behaviour(level + 3)
+                if i < 2:
+                    traces.append(tr)
+            out['t_replay'] = round(time.time() - t1, 1)
+            out['stats'] = d.stats
+            out['edges_visited'] = len(g.visited)
+            out['found'] = d.found[:200]
+            out['nfound'] = len(d.found)
+            out['samples'] = traces
+            d.close()
+            outs.append(out)
     except MachineryError as e:
-        out['machinery'] = str(e)
-    return out
+        outs.append({'shape': shape, 'machinery': str(e)})
+    return outs
 
 
 def signature(prop, shape, category, what):
@@ -77,13 +81,12 @@ def run(ctx, prop, shapes=None, strategies=('default',), focus=None):
     shapes = shapes or ALL_SHAPES
     level = 4 if quick else 5
     nbeh = 800 if quick else 6000
-    jobs = []
-    for i, shape in enumerate(shapes):
-        for j, st in enumerate(strategies):
-            jobs.append((shape, level, nbeh, ctx.seed * 1000 + i * 10 + j, st, ctx.scratch.dir, j == 0, 2))
+    if len(strategies) > 1:
+        nbeh = nbeh // 2
+    jobs = [(shape, level, nbeh, ctx.seed * 1000 + i * 10, tuple(strategies), ctx.scratch.dir, 2) for i, shape in enumerate(shapes)]
     mp = multiprocessing.get_context('fork')
     with mp.Pool(min(len(jobs), 8)) as pool:
-        results = pool.map(_one_shape, jobs)
+        results = [r for rs in pool.map(_one_shape, jobs) for r in rs]
     mine = [c for c, p in session.CATEGORIES.items() if p == prop]
     states = transitions = behaviours = steps = 0
     agg = {}
@@ -103,6 +106,8 @@ def run(ctx, prop, shapes=None, strategies=('default',), focus=None):
             nontrivial[k] = nontrivial.get(k, 0) + v
         for category, what, trace in r['found']:
             owner = session.CATEGORIES.get(category)
+            if prop == 'C23' and category in ('read', 'ends', 'identity', 'commit', 'failure') and r['strategy'] != 'default':
+                owner = 'C23'    # the same behaviour, replayed under a non-default loading strategy, must observe the same data
             if category == 'crash':
                 owner = prop     # an unexpected exception inside pony concerns every property of the session model
             if owner == prop:
